@@ -88,9 +88,9 @@ static uint32_t sum32_cb(const unsigned char *d, size_t n, uint32_t init)
 }
 static void open_instance(void)
 {
-    memset(&st, 0, sizeof st);
+    memset(&st, 0xA5, sizeof st);        /* initialisation must not rely on a zeroed instance */
     persistent_init(&st, (size_t)C.n, m_read, m_write);
-    if (C.alg == 2) persistent_sum16(&st, crc_cb, 0);
+    if (C.alg == 2) persistent_sum16(&st, crc_cb, 7439);
     else if (C.alg == 3) persistent_sum32(&st, sum32_cb, 7);
     persistent_place(&st, (uint32_t)C.place + MB);
     if (aux) { xfree(aux); aux = NULL; }
